@@ -8,7 +8,7 @@ Registered by name via ``ProcessorRegistry.register_modules(["svsim.lib"])`` or 
 from __future__ import annotations
 
 from semantiva.context_processors import ContextProcessor, ContextType
-from semantiva.data_io import DataSink, DataSource, PayloadSource
+from semantiva.data_io import DataSink, DataSource, PayloadSink, PayloadSource
 from semantiva.data_processors import DataOperation, DataProbe
 from semantiva.data_types import BaseDataType
 from semantiva.examples.test_utils import FloatDataCollection, FloatDataType
@@ -314,6 +314,34 @@ class SvCtxWriterOpaque(_FloatOp):
         return FloatDataType(data.data + 0.0)
 
 
+class SvCtxWriterArray(_FloatOp):
+    """Writes (or REBINDS, when it runs twice) the declared key ``arr`` with a multi-element numpy array: a value whose
+    ``==`` is element-wise, not a bool."""
+
+    @classmethod
+    def context_keys(cls):
+        return ["arr"]
+
+    def _process_logic(self, data):
+        import numpy as _np
+        _invoke("SvCtxWriterArray", {}, data)
+        self._notify_context_update("arr", _np.array([1.0, 2.0, float(data.data)]))
+        return FloatDataType(data.data + 1.0)
+
+
+class SvCtxWriterMixedKeys(_FloatOp):
+    """Writes a mapping whose keys are of different types (legal Python, not sortable) under ``mk``."""
+
+    @classmethod
+    def context_keys(cls):
+        return ["mk"]
+
+    def _process_logic(self, data):
+        _invoke("SvCtxWriterMixedKeys", {}, data)
+        self._notify_context_update("mk", {1: 1.0, "b": 2.0})
+        return FloatDataType(data.data + 0.0)
+
+
 class SvCtxWriterA(_FloatOp):
     """Writes declared context key ``wa``."""
 
@@ -383,6 +411,25 @@ class SvTextLen(DataOperation):
     def _process_logic(self, data):
         _invoke("SvTextLen", {}, data)
         return FloatDataType(float(len(data.data)))
+
+
+class SvBumpLast(DataOperation):
+    """Returns a copy of the collection in which only the LAST item differs (plus `delta`)."""
+
+    @classmethod
+    def input_data_type(cls):
+        return FloatDataCollection
+
+    @classmethod
+    def output_data_type(cls):
+        return FloatDataCollection
+
+    def _process_logic(self, data, delta: float = 1.0):
+        _invoke("SvBumpLast", {"delta": delta}, data)
+        items = [FloatDataType(i.data) for i in data.data]
+        if items:
+            items[-1] = FloatDataType(items[-1].data + delta)
+        return FloatDataCollection.from_list(items) if hasattr(FloatDataCollection, "from_list") else FloatDataCollection(items)
 
 
 class SvCollSum(DataOperation):
@@ -467,6 +514,18 @@ class SvNullSink(DataSink):
         return FloatDataType
 
 
+class SvPayloadSink(PayloadSink):
+    """Receives the whole payload (data + context) and discards it."""
+
+    @classmethod
+    def _send_payload(cls, payload):
+        _invoke("SvPayloadSink", {}, payload.data)
+
+    @classmethod
+    def input_data_type(cls):
+        return FloatDataType
+
+
 # ---------------------------------------------------------------- context processors
 class SvCtxCombine(ContextProcessor):
     """comb_out = a_in * b_in (b_in defaulted)."""
@@ -494,9 +553,9 @@ class SvBadCtxProc(ContextProcessor):
 
 LEAF_NAMES = [
     "SvSource", "SvSourceDefault", "SvPayloadSource", "SvAdd", "SvAddDefault", "SvMul",
-    "SvMulDefault", "SvAffine", "SvPoly", "SvJitter", "SvSlow", "SvCaseOp", "SvScaleInPlace", "SvToStream", "SvStreamSum", "SvNeedsSubFloat", "SvRaiseOdd", "SvProbeNone", "SvWrongOutput", "SvWriteThenFail", "SvCtxWriterOpaque", "SvCtxWriterA", "SvCtxWriterB", "SvBadWriter", "SvToText",
-    "SvTextLen", "SvCollSum", "SvProbe", "SvProbeParam", "SvProbeDefault", "SvFileSink",
-    "SvNullSink", "SvCtxCombine", "SvBadCtxProc",
+    "SvMulDefault", "SvAffine", "SvPoly", "SvJitter", "SvSlow", "SvCaseOp", "SvScaleInPlace", "SvToStream", "SvStreamSum", "SvNeedsSubFloat", "SvRaiseOdd", "SvProbeNone", "SvWrongOutput", "SvWriteThenFail", "SvCtxWriterOpaque", "SvCtxWriterArray", "SvCtxWriterMixedKeys", "SvCtxWriterA", "SvCtxWriterB", "SvBadWriter", "SvToText",
+    "SvTextLen", "SvBumpLast", "SvCollSum", "SvProbe", "SvProbeParam", "SvProbeDefault", "SvFileSink",
+    "SvNullSink", "SvPayloadSink", "SvCtxCombine", "SvBadCtxProc",
 ]
 
 
